@@ -5,7 +5,7 @@ usage: tools_seeds_retest.py [seed ids...]"""
 import json, os, re, subprocess, sys, shutil, concurrent.futures as cf
 V = os.path.dirname(os.path.abspath(__file__))
 units = json.load(open(os.path.join(V, "units.json")))["units"]
-TU_FILES = {"lbuf": ["lbuf.c"], "ex": ["ex.c"], "uc": ["uc.c"], "ucsh": ["uc.c"], "rstr": ["rstr.c"], "mot": ["mot.c"], "motfc": ["mot.c"], "motnx": ["mot.c"], "motwl": ["mot.c"], "motwb": ["mot.c"], "motwe": ["mot.c"], "motpr": ["mot.c"], "motsc": ["mot.c"], "motpg": ["mot.c"],
+TU_FILES = {"lbuf": ["lbuf.c"], "ex": ["ex.c"], "uc": ["uc.c"], "ucsh": ["uc.c"], "rstr": ["rstr.c"], "mot": ["mot.c"], "motfc": ["mot.c"], "motnx": ["mot.c"], "motwl": ["mot.c"], "motwb": ["mot.c"], "motwe": ["mot.c"], "motpr": ["mot.c"], "motsc": ["mot.c"], "motin": ["mot.c"], "motpg": ["mot.c"],
             "regex": ["regex.c"], "rxuc": ["regex.c", "uc.c"], "sbuf": ["sbuf.c"], "dir": ["dir.c"], "ren": ["ren.c"], "renro": ["ren.c"], "renpo": ["ren.c"],
             "term": ["term.c"], "reg": ["reg.c"], "cmd": ["cmd.c"], "ledl": ["led.c"], "ledh": ["led.c"], "vix": ["vi.c"], "vixq": ["vi.c"], "virp": ["vi.c"], "viin": ["vi.c"], "vish": ["vi.c"], "vics": ["vi.c"], "vipf": ["vi.c"], "vimo": ["vi.c"], "vidy": ["vi.c"], "viml": ["vi.c"], "vimv": ["vi.c"], "visr": ["vi.c"], "vilp": ["vi.c"], "rset": ["rset.c"], "rsgc": ["rset.c", "regex.c"], "exparse": ["ex.c"], "exexec": ["ex.c"], "exed": ["ex.c"], "exmk": ["ex.c"], "exsr": ["ex.c"]}
 def files_of(u):
